@@ -120,6 +120,13 @@ def check_pair(psutil, w, rows1, rows2, nf, form, blocking, viols, case):
                         viols.append(("cpu_times_percent:sum:%s" % sub, "shares sum to %r (deltas %r)" % (s, d)))
 
 
+def _others(p, i):
+    """CPU time of reaped children and block-I/O wait also move between two calls: they are not the process's own CPU time"""
+    p.stat["cutime"] += 37 * (i + 1)
+    p.stat["cstime"] += 41
+    p.stat["blkio_ticks"] += 53 + i
+
+
 def run_case(case, w):
     import psutil
     k = case[0]
@@ -158,6 +165,7 @@ def run_case(case, w):
                 w.mono += dw
                 p.stat["utime"] += du
                 p.stat["stime"] += ds
+                _others(p, i)
                 p.denied.add("stat")
                 got = outcome(pr.cpu_percent, None)
                 p.denied.discard("stat")
@@ -168,6 +176,7 @@ def run_case(case, w):
                 w.mono += dw
                 p.stat["utime"] += du
                 p.stat["stime"] += ds
+                _others(p, i)
                 got = outcome(pr.cpu_percent, None)
                 if prev is None:
                     exp = 0.0
@@ -180,6 +189,7 @@ def run_case(case, w):
                     if kind_ == "sleep":
                         p.stat["utime"] += du
                         p.stat["stime"] += ds
+                        _others(p, i)
                 w.hook = hook
                 try:
                     got = outcome(pr.cpu_percent, dw)
@@ -206,6 +216,51 @@ def run_case(case, w):
             got = outcome(pr.cpu_percent, bad)
             if not (got[0] == "exc" and got[1] == "ValueError"):
                 viols.append(("Process.cpu_percent:negative-interval", repr(got)))
+    elif k == "foreign":
+        # a thread that was not created through the threading module (C extension / embedding / _thread.start_new_thread)
+        # is a calling thread like any other: measured against ITS OWN previous sample, whatever other threads do in between
+        import _thread
+        import threading
+        nf = 10
+        base = [1000 * (j + 1) for j in range(10)]
+        snaps = [[[b + st * dlt for b, dlt in zip(base, dl)]] for st, dl in enumerate(
+            [[0] * 10, [10, 0, 5, 85, 0, 0, 0, 0, 0, 0], [40, 0, 5, 55, 0, 0, 0, 0, 0, 0]])]
+        # cumulative: snapshot k = base + k * delta_k is not cumulative; build explicitly
+        s0 = [list(base)]
+        s1 = [[b + d for b, d in zip(base, [10, 0, 5, 85, 0, 0, 0, 0, 0, 0])]]
+        s2 = [[b + d for b, d in zip(s1[0], [75, 0, 0, 25, 0, 0, 0, 0, 0, 0])]]
+        psutil._pslinux.set_scputimes_ntuple.cache_clear()
+        for dct in (psutil._last_cpu_times, psutil._last_per_cpu_times, psutil._last_cpu_times_2, psutil._last_per_cpu_times_2):
+            dct.clear()
+        go, back = threading.Semaphore(0), threading.Semaphore(0)
+        res = []
+
+        def raw_thread():
+            try:
+                for _ in range(3):
+                    go.acquire()
+                    res.append((outcome(psutil.cpu_percent, None), outcome(psutil.cpu_percent, None, True)))
+                    back.release()
+            finally:
+                back.release()
+        set_stat(w, s0, nf)
+        _thread.start_new_thread(raw_thread, ())
+        for snap in (s0, s1, s2):
+            set_stat(w, snap, nf)
+            outcome(psutil.cpu_percent, None)            # the main thread samples in between (its own history)
+            outcome(psutil.cpu_times_percent, None)
+            go.release()
+            if not back.acquire(timeout=30):
+                viols.append(("foreign-thread:no-answer", "raw thread did not answer"))
+                break
+        # raw thread: call 0 first sample (0.0), call 1 measures s0->s1 (busy 15/100), call 2 s1->s2 (75/100)
+        exp = [0.0, 15.0, 75.0]
+        for i, r in enumerate(res[:3]):
+            a, b = r
+            if a[0] != "ok" or abs(a[1] - exp[i]) > 0.051:
+                viols.append(("foreign-thread:cpu_percent", "call %d from a thread not created by threading -> %r expected %r" % (i, a, exp[i])))
+            if b[0] != "ok" or len(b[1]) != 1 or abs(b[1][0] - exp[i]) > 0.051:
+                viols.append(("foreign-thread:cpu_percent-percpu", "call %d -> %r expected [%r]" % (i, b, exp[i])))
     elif k == "neg":
         for fn in (psutil.cpu_percent, psutil.cpu_times_percent):
             got = outcome(fn, interval=-1)
@@ -223,7 +278,7 @@ def worker(chunk):
 
 
 def build_cases(thorough):
-    cases = [("neg",)]
+    cases = [("neg",), ("foreign",)]
     for nf in (8, 10):
         rows12 = [[(c + 1) * 1000 + 7 * i for i in range(10)] for c in range(12)]
         cases.append(("times", rows12, nf))
